@@ -447,6 +447,46 @@ def run(repo: Repo) -> Result:
         for ln, src, kl, kr in sorted(bad):
             what = "a bool can meet a non-bool in Python's ==, where 1 == True and 0 == False" if fn_name == "_eq" else "operands other than two strings or two non-bool numbers reach Python's <"
             res.add("C12-KINDS", f.qual, f"{src}:{'bool-leak' if 'B' in kl + kr else 'kinds'}", f"{f.qual}: `{src}` is reachable with left in {{{kl}}} and right in {{{kr}}} — {what}", f.file, ln)
+    # ---- C12-KINDS (table of `_lt`): which kind pairs are ordered, false, or a type error -------
+    # Three-valued run of `_lt` for every pair of operand kinds (sa/kinds.exits_for_kinds): two
+    # non-bool numbers (int, float, Decimal in any mix) or two strings reach the Python
+    # comparison and nothing else; a bool on either side gives `return False`; every other pair
+    # (a number with a string, nil, arrays, hashes, ranges) reaches the LiquidTypeError and
+    # nothing else.  Decides the "ordering comparisons between incompatible types raise, compatible
+    # ones do not" clause on the value lattice of the property, by kind.
+    from ..kinds import _k, exits_for_kinds
+
+    lt = repo.func(f"{L}._lt")
+    ops = [p_ for p_ in lt.params()][-2:]
+    n_pairs = 0
+    KS = "IFCSBNLDR"
+    for a in KS:
+        for b in KS:
+            try:
+                ex = exits_for_kinds(lt.node, {ops[0]: _k(a), ops[1]: _k(b)}, lt.module.assigns, resolve_func=lambda nm: (lt.module.functions[nm].node if nm in lt.module.functions else None))
+            except ValueError as err:
+                raise AnchorMissing(f"{lt.qual}: {err}") from err
+            got = set()
+            for st_, _env in ex:
+                if isinstance(st_, ast.Raise):
+                    got.add("raise:" + ("LiquidTypeError" if "LiquidTypeError" in text(st_) else text(st_)[:40]))
+                elif isinstance(st_.value, ast.Constant):
+                    got.add(f"const:{st_.value.value}")
+                elif isinstance(st_.value, ast.Compare) and len(st_.value.ops) == 1 and isinstance(st_.value.ops[0], (ast.Lt, ast.Gt)) and {text(st_.value.left), text(st_.value.comparators[0])} == set(ops):
+                    got.add("compare")
+                else:
+                    got.add("other:" + text(st_.value)[:40])
+            if "B" in (a, b):
+                want = {"const:False"}
+            elif (a in "IFC" and b in "IFC") or (a == b == "S"):
+                want = {"compare"}
+            else:
+                want = {"raise:LiquidTypeError"}
+            n_pairs += 1
+            if got != want:
+                names = {"I": "int", "F": "float", "C": "Decimal", "S": "str", "B": "bool", "N": "nil", "L": "array", "D": "hash", "R": "range"}
+                res.add("C12-KINDS", lt.qual, f"table:{a}{b}", f"{lt.qual} with a left operand of kind {names[a]} and a right operand of kind {names[b]} ends in {sorted(got)}; the documented result is {sorted(want)} (numbers of any mix of int/float/Decimal and two strings are ordered, a bool is never ordered, everything else is a Liquid type error)", lt.file, lt.line)
+    res.ob(f"table:{lt.qual}", n_pairs)
     # ---- C12-FALSY: `contains` with a nil / undefined operand -------------------------------
     # "nil and undefined are falsy" + "contains ... is false whenever either side is nil or
     # undefined": with one operand restricted to {none, undefined} every feasible exit of
